@@ -80,7 +80,15 @@ fn age_prim(kind: &str, unit: &str) -> String {
 }
 
 fn selected(dir: &Path, now: Ts, test: &[String]) -> Result<bool, Value> {
-    let mut args: Vec<String> = vec!["R/e".into()];
+    selected_mode(dir, now, "", test)
+}
+
+fn selected_mode(dir: &Path, now: Ts, mode: &str, test: &[String]) -> Result<bool, Value> {
+    let mut args: Vec<String> = vec![];
+    if !mode.is_empty() {
+        args.push(format!("-{}", mode));
+    }
+    args.push("R/e".into());
     args.extend(test.iter().cloned());
     args.push("-print0".into());
     let errf = dir.parent().unwrap().join("stderr.txt");
@@ -232,6 +240,17 @@ impl Prop for PTime {
                 set_times(&f, sub(rn, off("ra")), sub(rn, off("rm")));
                 std::thread::sleep(Duration::from_micros(plan["gap_us"].as_u64().unwrap_or(0)));
                 set_times(&e, sub(rn, off("ea")), sub(rn, off("em")));
+                // the reference may be named through a symbolic link with timestamps of its own: it is resolved iff
+                // -H or -L is in effect and it is not dangling
+                let reflink = plan.get("reflink").and_then(|r| r.as_str()).unwrap_or("");
+                let fl = dir.join("FL");
+                if !reflink.is_empty() {
+                    std::os::unix::fs::symlink(if reflink == "Ld" { "nowhere" } else { "F" }, &fl).unwrap();
+                    let c = std::ffi::CString::new(fl.as_os_str().as_bytes()).unwrap();
+                    let (la, lm) = (sub(rn, off("la")), sub(rn, off("lm")));
+                    let ts = [libc::timespec { tv_sec: la.0, tv_nsec: la.1 }, libc::timespec { tv_sec: lm.0, tv_nsec: lm.1 }];
+                    unsafe { libc::utimensat(libc::AT_FDCWD, c.as_ptr(), ts.as_ptr(), libc::AT_SYMLINK_NOFOLLOW) };
+                }
                 let (a, m, c) = stamps(&e);
                 let (ra, rm, rc) = stamps(&f);
                 let now = match plan["now_rel"].as_str().unwrap_or("real") {
@@ -250,15 +269,20 @@ impl Prop for PTime {
                         };
                         vec![age_prim(t["kind"].as_str().unwrap_or("m"), t["unit"].as_str().unwrap_or("day")), format!("{}{}", sign, t["n"].as_u64().unwrap_or(0))]
                     } else {
-                        vec![t["alias"].as_str().unwrap_or("-newer").to_string(), "F".into()]
+                        vec![t["alias"].as_str().unwrap_or("-newer").to_string(), if reflink.is_empty() { "F".into() } else { "FL".into() }]
                     };
-                    match selected(&dir, now, &args) {
+                    match selected_mode(&dir, now, &reflink[..reflink.len().min(1)], &args) {
                         Ok(b) => res.push(json!(b)),
                         Err(v) => return v,
                     }
                 }
-                json!({"res": res, "now": ts_json(now),
-                       "ent": {"a": ts_json(a), "m": ts_json(m), "c": ts_json(c)}, "rf": {"a": ts_json(ra), "m": ts_json(rm), "c": ts_json(rc)}})
+                let mut o = json!({"res": res, "now": ts_json(now),
+                       "ent": {"a": ts_json(a), "m": ts_json(m), "c": ts_json(c)}, "rf": {"a": ts_json(ra), "m": ts_json(rm), "c": ts_json(rc)}});
+                if !reflink.is_empty() {
+                    let (la, lm, lc) = stamps(&fl);
+                    o["rfl"] = json!({"a": ts_json(la), "m": ts_json(lm), "c": ts_json(lc)});
+                }
+                o
             }
         }
     }
@@ -281,8 +305,13 @@ impl Prop for PTime {
             };
             json!([s, n])
         };
-        let plan = json!({"ea": off(rng), "em": off(rng), "ra": off(rng), "rm": off(rng), "gap_us": rng.below(3) * 1500,
+        let mut plan = json!({"ea": off(rng), "em": off(rng), "ra": off(rng), "rm": off(rng), "gap_us": rng.below(3) * 1500,
                           "now_rel": *rng.pick(&["real", "c", "m", "a", "c"]), "now_off": off(rng)});
+        if rng.chance(1, 3) {
+            plan["reflink"] = json!(*rng.pick(&["P", "H", "L", "Ld", "P"]));
+            plan["la"] = off(rng);
+            plan["lm"] = off(rng);
+        }
         let mut tests = vec![];
         for kind in ["a", "m", "c"] {
             for unit in ["day", "min"] {
